@@ -181,6 +181,13 @@ def h_sharded(n, c, sh, g):
     _oracle(out, info, g, _x)
 
 
+def h_sharded_inner(n, c, ic, k, a, use_region, g):
+    """sharded target whose inner chunks are smaller than its shards, whole store or region store at a (shard-aligned) offset"""
+    out, info = SG.b_store_sharded_inner(n, c, ic, k, a, use_region)
+    sx.assume(g < info["shape"][0])
+    _oracle(out, info, g, _x)
+
+
 def h_pairing(ns, nt, nr, bad):
     """store() argument pairing: lengths of sources / targets / regions must agree, sources must be cubed arrays"""
     import cubed
@@ -229,6 +236,9 @@ def obligations(tier):
                  bounds=f"1-d target tn <= {R + 3}; regions slice(-k, None), slice(0, tn, 2), slice(None, k), slice(tn-k, None)", witness_rule=lambda m: m["tn"] >= 3, **common))
     o.append(Obl("fill[to_zarr-path]", h_path, [("n", 1, N), ("c", 1, N), ("g", 0, N)], bounds=f"n, chunk <= {N}", **common))
     o.append(Obl("fill[sharded-target]", h_sharded, [("n", 1, N), ("c", 1, N), ("sh", 1, N), ("g", 0, N)], bounds=f"n, chunk, shard <= {N}", witness_rule=lambda m: m["c"] != m["sh"], **common))
+    o.append(Obl("fill[sharded-target,inner-chunks]", h_sharded_inner, [("n", 1, 6), ("c", 1, 6), ("ic", 1, 2), ("k", 1, 3), ("a", 0, 6), ("use_region", 0, 1), ("g", 0, 12)],
+                 bounds="n, source chunk <= 6; inner chunks 1..2, shards of 1..3 inner chunks; whole store or a region at offset 0..6 (accepted only when shard-aligned)",
+                 witness_rule=lambda m: m["k"] >= 2 and m["a"] >= 1, **common))
     o.append(Obl("pairing", h_pairing, [("ns", 0, 3), ("nt", 0, 3), ("nr", 0, 4), ("bad", 0, 1)], bounds="0..3 sources/targets, regions None or a list of 0..3", **common))
 
     def twin(**kw):
